@@ -14,8 +14,8 @@ RULE = ("one case = one generated convex problem presented in several containers
         "(reference), C-ordered dense, CSC with int32 and with int64 index arrays; estimator level -- ndarray (F / C), "
         "CSC, CSR, list of lists, float32. Every container is solved cold at a tight tolerance. Oracle "
         "(differential): an accepted container gives the same objective within the subgradient-inequality margin and "
-        "the same coefficients within the strong-convexity bound (float32: objective within 1e-3 relative at tol "
-        "1e-4); a container that is not supported must raise AttributeError / ValueError / TypeError whose text "
+        "the same coefficients within the strong-convexity bound (float32: objective within 1e-3 relative + 1e-4 of "
+        "the null-model objective, at tol 1e-4); a container that is not supported must raise AttributeError / ValueError / TypeError whose text "
         "explains the missing sparse support -- a numba TypingError, any other exception, or a silently different "
         "answer is a violation. Non-trivial: >= 2 containers accepted and the solution has mixed support.")
 ASSUMPTIONS = ["convex compositions only; non-converged solves are inconclusive", "sparse containers are canonical CSC / CSR built by scipy from the dense matrix"]
@@ -160,7 +160,16 @@ def check_case(case):
                 viol.append(Viol(dict(sg, kind="non-finite-on-container"),
                                  f"{name} on a {cont} container returns non-finite coefficients while the Fortran-dense container converges"))
             else:
-                classes.append(f"not-converged:{cont}(inconclusive)")
+                # no time/iteration oracle -- but a descent solver that ends ABOVE the objective it started from, on
+                # a problem the Fortran-dense container solves to 1e-9 with the same budget, returned a different answer
+                from .c03 import start_point
+                Fs, Fb, Fa = M.F_of(ref, start_point(ref)), M.F_of(ref, o2.w) if o2.w is not None else np.nan, M.F_of(ref, o_ref.w)
+                if name not in ("FISTA", "LBFGS") and np.isfinite(Fs) and np.isfinite(Fb) and Fb > Fs + 1e-6 * (abs(Fs) + abs(Fa)):
+                    viol.append(Viol(dict(sg, kind="diverges-on-container"),
+                                     f"{name} on a {cont} container does not converge and returns objective {Fb!r}, above the start "
+                                     f"({Fs!r}); the Fortran-dense container converges to {Fa!r}"))
+                else:
+                    classes.append(f"not-converged:{cont}(inconclusive)")
             continue
         accepted += 1
         factor = 4. if name == "FISTA" else 2.
@@ -302,7 +311,11 @@ def check_estimator(case):
         w2 = fitted_w(m2, case)
         if kind == "float32":
             Fa, Fb = M.F_of(pc, w_ref), M.F_of(pc, w2)
-            if abs(Fa - Fb) > 1e-3 * (abs(Fa) + 1e-12) + 1e-4 * (1 + float(np.abs(w2 - w_ref).sum())):
+            # single precision: the incrementally updated model-fit buffer drifts by ~eps32 * |y| per coordinate
+            # update, i.e. by eps32 * (number of epochs) relative to the DATA scale on slowly converging (nearly
+            # collinear) designs -- the yardstick is the null-model objective F(0), not the optimal value
+            F0 = M.F_of(pc, np.zeros_like(w_ref))
+            if abs(Fa - Fb) > 1e-3 * (abs(Fa) + 1e-12) + 1e-4 * (1 + float(np.abs(w2 - w_ref).sum())) + 1e-4 * abs(F0):
                 viol.append(Viol(dict(sg, kind="objective-differs"), f"{est} on float32 data: objective {Fb!r} vs float64 {Fa!r}"))
         else:
             viol += M.compare(pc, w_ref, w2, 1e-9, f"{est} on {kind} vs ndarray", sg, Viol)
